@@ -3,6 +3,8 @@
 package vboth
 
 import (
+	"errors"
+
 	aws2 "github.com/aws/aws-sdk-go-v2/aws"
 	ddb2 "github.com/aws/aws-sdk-go-v2/service/dynamodb"
 	types2 "github.com/aws/aws-sdk-go-v2/service/dynamodb/types"
@@ -12,6 +14,7 @@ import (
 	v2 "github.com/truora/minidyn/aws-v2/client"
 	"github.com/truora/minidyn/internal/nd"
 	"github.com/truora/minidyn/internal/vspec"
+	mtypes "github.com/truora/minidyn/types"
 )
 
 func s1(s string) *ddb1.AttributeValue  { return to1(vspec.Val{Kind: "S", S: s}) }
@@ -517,5 +520,68 @@ func VerifC17Batch() {
 		o2, e2 := c2.Scan(ctx, &ddb2.ScanInput{TableName: aws2.String(name)})
 		nd.Assert(e1 == nil && e2 == nil && sameItems(o1.Items, o2.Items), "C17b-batch-same-contents")
 	}
+	nd.Reach("end")
+}
+
+// VerifC17Refusal: a conditional PutItem / UpdateItem / DeleteItem whose condition may hold or not through
+// both clients over the same stored item: same outcome class, a refusal recognisable as a conditional check
+// failure in both (v1 hands out the library's own exception type, v2 the SDK's), no item carried unless asked
+// for, the same contents afterwards.
+func VerifC17Refusal() {
+	c1, c2 := v1.NewClient(), v2.NewClient()
+	e1, e2 := v1.AddTable(c1, tbl, "p", ""), v2.AddTable(ctx, c2, tbl, "p", "")
+	nd.Assert(e1 == nil && e2 == nil, "C17f-create")
+	if nd.Bool("stored") {
+		v := nd.StringN("v", 1)
+		_, p1 := c1.PutItem(&ddb1.PutItemInput{TableName: aws1.String(tbl), Item: item1{"p": s1("k"), "v": s1(v), "w": s1("keep")}})
+		_, p2 := c2.PutItem(ctx, &ddb2.PutItemInput{TableName: aws2.String(tbl), Item: item2{"p": s2("k"), "v": s2(v), "w": s2("keep")}})
+		nd.Assert(p1 == nil && p2 == nil, "C17f-load")
+	}
+	cond := []string{"attribute_not_exists(p)", "v = :x", "attribute_exists(p) AND v <> :x"}[nd.Choice("condition", 3)]
+	x := nd.StringN("x", 1)
+	var vals1 item1
+	var vals2 item2
+	if cond != "attribute_not_exists(p)" {
+		vals1, vals2 = item1{":x": s1(x)}, item2{":x": s2(x)}
+	}
+	allOld := nd.Bool("all-old")
+	// the v1 SDK vendored here has no ReturnValuesOnConditionCheckFailure; only v2 can ask for the item
+	var rv2 types2.ReturnValuesOnConditionCheckFailure
+	if allOld {
+		rv2 = types2.ReturnValuesOnConditionCheckFailureAllOld
+	}
+	var err1, err2 error
+	switch nd.Choice("op", 3) {
+	case 0:
+		_, err1 = c1.PutItem(&ddb1.PutItemInput{TableName: aws1.String(tbl), Item: item1{"p": s1("k"), "v": s1("new")}, ConditionExpression: aws1.String(cond), ExpressionAttributeValues: vals1})
+		_, err2 = c2.PutItem(ctx, &ddb2.PutItemInput{TableName: aws2.String(tbl), Item: item2{"p": s2("k"), "v": s2("new")}, ConditionExpression: aws2.String(cond), ExpressionAttributeValues: vals2, ReturnValuesOnConditionCheckFailure: rv2})
+	case 1:
+		u1, u2 := item1{":n": s1("new")}, item2{":n": s2("new")}
+		for k, v := range vals1 {
+			u1[k] = v
+		}
+		for k, v := range vals2 {
+			u2[k] = v
+		}
+		_, err1 = c1.UpdateItem(&ddb1.UpdateItemInput{TableName: aws1.String(tbl), Key: item1{"p": s1("k")}, UpdateExpression: aws1.String("SET v = :n"), ConditionExpression: aws1.String(cond), ExpressionAttributeValues: u1})
+		_, err2 = c2.UpdateItem(ctx, &ddb2.UpdateItemInput{TableName: aws2.String(tbl), Key: item2{"p": s2("k")}, UpdateExpression: aws2.String("SET v = :n"), ConditionExpression: aws2.String(cond), ExpressionAttributeValues: u2, ReturnValuesOnConditionCheckFailure: rv2})
+	case 2:
+		_, err1 = c1.DeleteItem(&ddb1.DeleteItemInput{TableName: aws1.String(tbl), Key: item1{"p": s1("k")}, ConditionExpression: aws1.String(cond), ExpressionAttributeValues: vals1})
+		_, err2 = c2.DeleteItem(ctx, &ddb2.DeleteItemInput{TableName: aws2.String(tbl), Key: item2{"p": s2("k")}, ConditionExpression: aws2.String(cond), ExpressionAttributeValues: vals2, ReturnValuesOnConditionCheckFailure: rv2})
+	}
+	nd.Assert(class1(err1) == class2(err2), "C17f-same-error-class")
+	if err1 != nil && err2 != nil {
+		nd.Reach("refused")
+		var f1 *mtypes.ConditionalCheckFailedException
+		var f2 *types2.ConditionalCheckFailedException
+		ok1, ok2 := errors.As(err1, &f1), errors.As(err2, &f2)
+		nd.Assert(ok1 == ok2, "C17f-refusal-is-a-conditional-check-failure-in-both")
+		if ok1 && ok2 && !allOld {
+			nd.Assert(len(f1.Item) == 0 && len(f2.Item) == 0, "C17f-refusal-carries-no-item-unless-asked")
+		}
+	}
+	o1, se1 := c1.Scan(&ddb1.ScanInput{TableName: aws1.String(tbl)})
+	o2, se2 := c2.Scan(ctx, &ddb2.ScanInput{TableName: aws2.String(tbl)})
+	nd.Assert(se1 == nil && se2 == nil && sameItems(o1.Items, o2.Items), "C17f-same-contents")
 	nd.Reach("end")
 }
